@@ -22,7 +22,18 @@ def zenc(z):
 
 
 def pkey(p):
-    return (p[0], p[1] if len(p) > 1 else None)
+    """identity of a predicate = what Predicate.UUID hashes: id and Go's UnixNano() (p[4]); None = immutable"""
+    return (p[0], p[4] if len(p) > 1 else None)
+
+
+def inst(p):
+    """the anchor instant of a temporal predicate in ns since the epoch (unbounded)"""
+    return p[1] * 10**9 + p[2]
+
+
+def pmatch(q, p):
+    """same id, same kind, same instant when temporal"""
+    return q[0] == p[0] and (len(q) > 1) == (len(p) > 1) and (len(q) == 1 or inst(q) == inst(p))
 
 
 def okey(o):
@@ -34,7 +45,7 @@ def tkey(t):
 
 
 def enc_pred(p):
-    return [p[0], 0] if len(p) == 1 else [p[0], 1, zenc(p[1]), zenc(p[2])]
+    return [p[0], 0] if len(p) == 1 else [p[0], 1, zenc(p[1]), p[2], zenc(p[3])]
 
 
 def enc_obj(o):
@@ -104,17 +115,19 @@ class Spec:
             t = self.U[r]
             if "n" in a and a["n"] != t["s"]:
                 continue
-            if "p" in a and pkey(a["p"]) != pkey(t["p"]):
+            if "p" in a and not pmatch(a["p"], t["p"]):
                 continue
             if "o" in a and okey(a["o"]) != okey(t["o"]):
                 continue
             cands.append(r)
         lower, upper = lo.get("lower"), lo.get("upper")
+        lower = None if lower is None else lower[0] * 10**9 + lower[1]
+        upper = None if upper is None else upper[0] * 10**9 + upper[1]
 
         def in_window(p):
             if len(p) == 1:
                 return True
-            return (lower is None or lower <= p[1]) and (upper is None or p[1] <= upper)
+            return (lower is None or lower <= inst(p)) and (upper is None or inst(p) <= upper)
         w = [r for r in cands if in_window(self.U[r]["p"])]
         flt = lo.get("filter")
         if lo.get("latest"):
@@ -140,8 +153,8 @@ class Spec:
                 for r in w:
                     p = sel(r)
                     if p is not None and len(p) > 1:
-                        best[p[0]] = max(best.get(p[0], p[1]), p[1])
-                w = [r for r in w if sel(r) is not None and len(sel(r)) > 1 and sel(r)[1] == best[sel(r)[0]]]
+                        best[p[0]] = max(best.get(p[0], inst(p)), inst(p))
+                w = [r for r in w if sel(r) is not None and len(sel(r)) > 1 and inst(sel(r)) == best[sel(r)[0]]]
         n, k = lo.get("max", 0), lo.get("offset", 0)
         skip = max(n * k, 0)
         w = w[skip:skip + n] if n > 0 else w[skip:]
